@@ -180,7 +180,7 @@ class Index:
                 handle_import(node)
         for node in m.tree.body:
             if isinstance(node, ast.FunctionDef):
-                m.functions[node.name] = FuncInfo(node.name, node, m)
+                m.functions[node.name] = FuncInfo(node.name, node, m, None, "function", tuple(ast.unparse(d) for d in node.decorator_list))
             elif isinstance(node, ast.ClassDef):
                 self._index_class(m, node)
             elif isinstance(node, ast.Assign) and len(node.targets) == 1:
